@@ -27,9 +27,28 @@ NODE = "src/core/Node.cpp"
 KPRIME = 2147483647
 
 
+HARNESS_NOTES: list = []
+
+
 def harness():
-    return build_harness("admission_h", "harness/admission_h.cpp", [s for s in ALL_CORE_SOURCES if s != NODE],
-                         includes_repo_cpp=True, vclock=True, libs=("-lcurl", "-lpthread"))
+    """admission_h reaches three anonymous-namespace validators of Node.cpp by name when they exist
+    (-DVERIF_INTERNALS=1, Node.cpp #included); if they are renamed or gone it is rebuilt without them
+    (-DVERIF_INTERNALS=0, Node.cpp linked normally) and measures the same facts through an oracle Node /
+    the property's own statement. No op is internal-only, so no case is dropped."""
+    def build(defines):
+        internals = "-DVERIF_INTERNALS=1" in defines
+        sources = [s for s in ALL_CORE_SOURCES if s != NODE] if internals else list(ALL_CORE_SOURCES)
+        return build_harness("admission_h", "harness/admission_h.cpp", sources, includes_repo_cpp=True, vclock=True,
+                             libs=("-lcurl", "-lpthread"), defines=defines)
+    del HARNESS_NOTES[:]
+    exe, _internals = build_harness_with_fallback(build, HARNESS_NOTES)
+    return exe
+
+
+def post(ctx, results):
+    for n in HARNESS_NOTES:
+        if n not in ctx.notes:
+            ctx.notes.append(n + " -- validity facts (handshake PoW, threshold, expiry) measured without the private validators")
 
 
 def extract():
@@ -158,6 +177,7 @@ def spec() -> Spec:
         generate=generate,
         extract=extract,
         nontrivial=nontrivial,
+        post=post,
         budget={"quick": 350, "thorough": 3500},
         search_budget={"quick": 1500, "thorough": 12000},
         rule="handshake histories from 1-3 claimed peers against a real Node under the virtual clock through perform_handshake, "
@@ -166,6 +186,7 @@ def spec() -> Spec:
              "(-1 ns, 0, +1 ns) and outside; cooldowns 0, negative, 1 s .. 1 h; PoW difficulty 0..10; reputation driven to "
              "the floor; distinct = sha256 of the op list; non-trivial = at least one accept and one reject",
         trusted_base=["virtual clock by link-time interposition of steady_clock::now",
+                      "validity facts measured with Node.cpp's private validators when they exist (VERIF_INTERNALS=1), otherwise through an oracle Node / the property's own statement (noted in the evidence)",
                       "harness nonce tokens: g/g2 from the real solver, b/b2/o found with the real validator; validity facts re-measured and compared with the model's",
                       "session key identified with the public key it was derived from (harness re-derives keys with the real KeyExchange/HMAC code)"],
         assumptions=["one live inbound session per peer at a time (the harness closes the socket after each `sock` op)",
